@@ -213,3 +213,40 @@ def geodst_rewrite_of_what_was_read_is_the_same_file(g: int, nrass: int, nbs: in
     assert st2.nwrites() == st.nwrites(), "same number of records"
     for k in range(st.nwrites()):
         assert st2.written(k) == st.written(k), "same bytes"
+
+
+# ----------------------------------------------------------------------------- widened hypotheses (assumption review)
+BIG = [-2147483648, -40000, -32769, 32768, 70000, 2147483647, 5, 0]
+GEN_BIG = dict(GEN, g=(1, 5), nrass=(0, 1), **{"r%d" % k: BIG for k in range(8)})
+
+
+@lemma(gen=GEN_BIG)
+def geodst_region_numbers_beyond_16_bits_round_trip(g: int, nrass: int, x0: float, x1: float, x2: float,
+                                                    v0: float, v1: float, b0: float, c0: float, i0: int, i1: int, i2: int, i3: int,
+                                                    z0: int, z1: int, z2: int, z3: int,
+                                                    r0: int, r1: int, r2: int, r3: int, r4: int, r5: int, r6: int, r7: int):
+    """the two lemmas above assume region numbers of 16 bits (a reading defect - finding F103 - that has been repaired:
+    the map is a 4-byte integer field like every other integer of the file).  Here the region map holds ANY 4-byte
+    integers: fine-mesh (NRASS = 0) and coarse-mesh (NRASS = 1) maps, IGOM in {1, 3, 6, 11, 12}, mesh (2, 1, 2):
+    read back and written again byte for byte"""
+    g = choose(g, 1, 5)
+    igom = IGOMS[g]
+    nrass, nbs = choose(nrass, 0, 1), 0
+    nci, ncj, nck = MESHES[1]
+    x = [x0, x1, x2, x0 + 1.0, x1 + 1.0, x2 + 1.0, x0 + 2.0, x1 + 2.0, x2 + 2.0]
+    ints = [i0, i1, i2, i3, z0, z1, z2, z3]
+    reals = [v0, v1, b0, c0]
+    regs = [r0, r1, r2, r3, r4, r5, r6, r7]
+    assume(int32(ints) and int32(regs))  # (P) the integers of the file are 4-byte fields
+    d, head = geodst_data(igom, nrass, nbs, nci, ncj, nck, x, ints, reals, regs)
+    st = memstream()
+    stream("wb", st, d).readWrite()
+    st.seek(0)
+    back = GeodstData()
+    stream("rb", st, back).readWrite()
+    check_read_back(back, d, head, igom, nrass, nbs, nci, ncj, nck, x, ints, reals, regs)
+    st2 = memstream()
+    stream("wb", st2, back).readWrite()
+    assert st2.nwrites() == st.nwrites(), "same number of records"
+    for k in range(st.nwrites()):
+        assert st2.written(k) == st.written(k), "same bytes"
